@@ -42,6 +42,7 @@ fn meta(tag: &str) -> HashMap<String, String> {
 }
 
 pub fn run(h: &Hist) -> RunOut {
+    kvh::panicrec::set_input(hist_json(h).to_string());
     let qc = Arc::new(QueryHashCache::new(h.cap, 1.0));
     let engine = TieredEngine::new(
         Box::new(LruCacheStrategy::new(16)),
